@@ -1,2 +1,276 @@
+(* Proofs/CrosstermFnGen.v -- the rendering of crossterm 0.28.1 as TRANSLATED from the registry source
+   (Generated/CrosstermFn.v, tools/gen_fn_crossterm.py), for C16:
+   1. shape: for EVERY value `v : ContentStyle` and text, `v.apply(text).to_string()` does not panic and
+      is  SGR sequences (background, foreground, underline colour, one per attribute in declaration
+      order) ++ text ++ SGR sequences (reset)  ([ct_render_eq], [g_crossterm_render_eq]);
+   2. what Spec/Vt + Spec/Sgr make of those bytes from the terminal's default state ([ct_interp_x]);
+   3. on the values the adapter builds ([ad_to_crossterm s]): the rendition of "x" is the projection of
+      the source style, modulo the identification of palette entries 0-15 with the 16 ANSI colours and,
+      when several underline kinds are set at once, modulo the underline kind (a terminal has one
+      underline attribute: the last sequence wins; refuted otherwise by a witness). *)
 From Coq Require Import NArith Arith List Bool Lia.
-From AV Require Import Spec.Vt Spec.Sgr Spec.Render Spec.Targets Model.Base Model.Imp Model.Crossterm Generated.CrosstermFn Proofs.CrosstermVt.
+From AV Require Import Spec.Vt Spec.Sgr Spec.Render Spec.Targets Model.Base Model.Imp
+  Generated.Adapters Model.Adapters Model.Crossterm Generated.CrosstermFn Proofs.CrosstermVt.
+Import ListNotations.
+Local Open Scope N_scope.
+
+(* ======================================================================== *)
+(* 0. small helpers                                                           *)
+
+Lemma lt_in_seq n k : n < N.of_nat k -> In n (map N.of_nat (seq 0 k)).
+Proof.
+  intros H. apply in_map_iff. exists (N.to_nat n). split; [apply N2Nat.id|].
+  apply in_seq. lia.
+Qed.
+
+Lemma forall_below (P : N -> bool) k :
+  forallb P (map N.of_nat (seq 0 k)) = true -> forall n, n < N.of_nat k -> P n = true.
+Proof. intros H n Hn. rewrite forallb_forall in H. apply H. now apply lt_in_seq. Qed.
+
+(* ======================================================================== *)
+(* 1. the hand model of the rendering: printed parameter lists                *)
+
+(* a control sequence is written as its printed parameters (Spec/Render rn_csi): parameters, each a list
+   of sub-parameters, each a digit string *)
+Definition ct_pr : Type := list (list (list N)).
+
+(* the palette index crossterm prints for its named colours *)
+Definition ct_named_index (c : ct_color) : N :=
+  match c with
+  | CtBlack => 0 | CtDarkRed => 1 | CtDarkGreen => 2 | CtDarkYellow => 3 | CtDarkBlue => 4 | CtDarkMagenta => 5
+  | CtDarkCyan => 6 | CtGrey => 7 | CtDarkGrey => 8 | CtRed => 9 | CtGreen => 10 | CtYellow => 11 | CtBlue => 12
+  | CtMagenta => 13 | CtCyan => 14 | CtWhite => 15
+  | _ => 0
+  end.
+
+Definition ct_color_tail (c : ct_color) : ct_pr :=
+  match c with
+  | CtReset => []
+  | CtRgb r g b => [[[50]]; [ct_dec r]; [ct_dec g]; [ct_dec b]]
+  | CtAnsiValue n => [[[53]]; [ct_dec n]]
+  | named => [[[53]]; [ct_dec (ct_named_index named)]]
+  end.
+
+Definition ct_colored_parts (cl : ct_colored) : N * ct_color :=
+  match cl with CtForeground c => (51, c) | CtBackground c => (52, c) | CtUnderline c => (53, c) end.
+
+(* <Colored as Display>::fmt, colours enabled *)
+Definition ct_colored_pr (cl : ct_colored) : ct_pr :=
+  let '(base, c) := ct_colored_parts cl in
+  if ct_color_eqb c CtReset then [[[base; 57]]] else [[base; 56]] :: ct_color_tail c.
+
+(* Attribute::sgr *)
+Definition ct_attr_pr (x : N) : ct_pr :=
+  let c := nth (N.to_nat x) g_ct_SGR 0 in
+  if (4 <? x) && (x <? 9) then [[[52]; ct_dec c]] else [[ct_dec c]].
+
+(* Attributes::has *)
+Definition ct_has (a x : N) : bool := negb (N.land a (N.shiftl 1 (x + 1)) =? 0).
+
+Definition ct_csis (prs : list ct_pr) : list N := concat (map (fun pr => rn_csi pr 109) prs).
+
+Definition ct_olist (mk : ct_color -> ct_colored) (o : option ct_color) : list ct_pr :=
+  match o with Some c => [ct_colored_pr (mk c)] | None => [] end.
+
+Definition ct_attrs_prs (a : N) : list ct_pr := map ct_attr_pr (filter (ct_has a) g_ct_attr_iterator).
+
+(* the commands PrintStyledContent issues before the text ... *)
+Definition ct_before (v : ct_style) : list ct_pr :=
+  ct_olist CtBackground (ct_bg v) ++ ct_olist CtForeground (ct_fg v) ++ ct_olist CtUnderline (ct_ul v)
+  ++ (if ct_attrs v =? 0 then [] else ct_attrs_prs (ct_attrs v)).
+
+(* ... and after it: ESC[0m when an attribute was set, else the colours that were set go back to the
+   default (the underline colour is "reset" by ESC[39m, the foreground's sequence) *)
+Definition ct_is_some {A} (o : option A) : bool := match o with Some _ => true | None => false end.
+Definition ct_after (v : ct_style) : list ct_pr :=
+  if ct_attrs v =? 0 then
+    (if ct_is_some (ct_bg v) then [[[[52; 57]]]] else []) ++
+    (if ct_is_some (ct_fg v) || ct_is_some (ct_ul v) then [[[[51; 57]]]] else [])
+  else [[[[48]]]].
+
+(* the bytes of `v.apply(text).to_string()` *)
+Definition ct_obytes (mk : ct_color -> ct_colored) (o : option ct_color) : list N :=
+  match o with Some c => rn_csi (ct_colored_pr (mk c)) 109 | None => [] end.
+Definition ct_render_bytes (v : ct_style) (text : list N) : list N :=
+  ct_obytes CtBackground (ct_bg v) ++ ct_obytes CtForeground (ct_fg v) ++ ct_obytes CtUnderline (ct_ul v)
+  ++ (if ct_attrs v =? 0 then [] else ct_csis (ct_attrs_prs (ct_attrs v)))
+  ++ text
+  ++ (if ct_attrs v =? 0 then
+        (if ct_is_some (ct_bg v) then rn_csi [[[52; 57]]] 109 else []) ++
+        (if ct_is_some (ct_fg v) || ct_is_some (ct_ul v) then rn_csi [[[51; 57]]] 109 else [])
+      else rn_csi [[[48]]] 109).
+
+(* ---- the translated functions are that model ------------------------------ *)
+
+Lemma g_ct_colored_fmt_eq cl f :
+  g_ct_colored_fmt false cl f = Some (f ++ rn_print_params (ct_colored_pr cl), inl tt).
+Proof.
+  unfold g_ct_colored_fmt, ct_colored_pr.
+  destruct cl as [c|c|c]; destruct c; cbn [ct_colored_parts ct_color_eqb ct_color_tail];
+    cbv beta iota zeta delta [ct_write_str ct_write_fmt ct_lit];
+    unfold rn_print_params; cbn [map rn_join app];
+    repeat rewrite <- app_assoc; cbn [app]; reflexivity.
+Qed.
+
+(* SetForegroundColor / SetBackgroundColor / SetUnderlineColor: `write!(f, csi!("{}m"), Colored::X(c))` *)
+Lemma write_csi_colored cl f :
+  ct_write_fmt [ct_lit [27; 91]; (fun f0 => g_ct_colored_fmt false cl f0); ct_lit [109]] f =
+  Some (f ++ rn_csi (ct_colored_pr cl) 109, inl tt).
+Proof.
+  cbn [ct_write_fmt]. unfold ct_lit at 1. unfold ct_write_str at 1.
+  rewrite g_ct_colored_fmt_eq. unfold ct_lit, ct_write_str. unfold rn_csi.
+  repeat rewrite <- app_assoc. reflexivity.
+Qed.
+
+Lemma g_ct_set_fg_eq c f :
+  g_ct_set_fg_write_ansi false c f = Some (f ++ rn_csi (ct_colored_pr (CtForeground c)) 109, inl tt).
+Proof. unfold g_ct_set_fg_write_ansi, ct_cmd_f0. rewrite write_csi_colored. reflexivity. Qed.
+Lemma g_ct_set_bg_eq c f :
+  g_ct_set_bg_write_ansi false c f = Some (f ++ rn_csi (ct_colored_pr (CtBackground c)) 109, inl tt).
+Proof. unfold g_ct_set_bg_write_ansi, ct_cmd_f0. rewrite write_csi_colored. reflexivity. Qed.
+Lemma g_ct_set_ul_eq c f :
+  g_ct_set_ul_write_ansi false c f = Some (f ++ rn_csi (ct_colored_pr (CtUnderline c)) 109, inl tt).
+Proof. unfold g_ct_set_ul_write_ansi, ct_cmd_f0. rewrite write_csi_colored. reflexivity. Qed.
+
+(* ---- attributes: finite facts about the 28 declared ones ------------------- *)
+
+Definition ct_nattrs : nat := length g_ct_attr_names.
+
+Fixpoint bytes_eqb (l1 l2 : list N) : bool :=
+  match l1, l2 with
+  | [], [] => true
+  | a :: t, b :: u => (a =? b) && bytes_eqb t u
+  | _, _ => false
+  end.
+
+Definition attr_fact (x : N) : bool :=
+  match g_ct_attr_bytes x, g_ct_attr_sgr x with
+  | Some b, Some s => (b =? N.shiftl 1 (x + 1)) && bytes_eqb s (rn_print_params (ct_attr_pr x))
+  | _, _ => false
+  end.
+
+Lemma bytes_eqb_eq l1 l2 : bytes_eqb l1 l2 = true -> l1 = l2.
+Proof.
+  revert l2. induction l1 as [|a t IH]; destruct l2 as [|b u]; cbn; try discriminate; auto.
+  intros H. apply andb_true_iff in H. destruct H as [A B]. apply N.eqb_eq in A. subst. f_equal. auto.
+Qed.
+
+Lemma attr_facts : forallb attr_fact (map N.of_nat (seq 0 ct_nattrs)) = true.
+Proof. vm_compute. reflexivity. Qed.
+
+Lemma attr_iterator_is : g_ct_attr_iterator = map N.of_nat (seq 0 ct_nattrs).
+Proof. reflexivity. Qed.
+
+Lemma attr_bytes_ok x : x < N.of_nat ct_nattrs -> g_ct_attr_bytes x = Some (N.shiftl 1 (x + 1)).
+Proof.
+  intros H. pose proof (forall_below _ _ attr_facts x H) as F. unfold attr_fact in F.
+  destruct (g_ct_attr_bytes x) as [b|]; [|discriminate]. destruct (g_ct_attr_sgr x); [|discriminate].
+  apply andb_true_iff in F. destruct F as [F _]. apply N.eqb_eq in F. now subst.
+Qed.
+
+Lemma attr_sgr_ok x : x < N.of_nat ct_nattrs -> g_ct_attr_sgr x = Some (rn_print_params (ct_attr_pr x)).
+Proof.
+  intros H. pose proof (forall_below _ _ attr_facts x H) as F. unfold attr_fact in F.
+  destruct (g_ct_attr_bytes x) as [b|]; [|discriminate]. destruct (g_ct_attr_sgr x); [|discriminate].
+  apply andb_true_iff in F. destruct F as [_ F]. apply bytes_eqb_eq in F. now subst.
+Qed.
+
+Lemma g_ct_attrs_has_eq a x : x < N.of_nat ct_nattrs -> g_ct_attrs_has a x = Some (ct_has a x).
+Proof. intros H. unfold g_ct_attrs_has. rewrite (attr_bytes_ok x H). reflexivity. Qed.
+
+Lemma g_ct_set_attr_eq x f : x < N.of_nat ct_nattrs ->
+  g_ct_set_attr_write_ansi false x f = Some (f ++ rn_csi (ct_attr_pr x) 109, inl tt).
+Proof.
+  intros H. unfold g_ct_set_attr_write_ansi, ct_cmd_f0. rewrite (attr_sgr_ok x H).
+  cbn [ct_write_fmt]. unfold ct_lit, ct_write_str, rn_csi. repeat rewrite <- app_assoc. reflexivity.
+Qed.
+
+(* SetAttributes: one sequence per attribute that is set, in declaration order *)
+Lemma g_ct_set_attrs_eq a f :
+  g_ct_set_attrs_write_ansi false a f = Some (f ++ ct_csis (ct_attrs_prs a), inl tt).
+Proof.
+  unfold g_ct_set_attrs_write_ansi, ct_cmd_f0, ct_attrs_prs.
+  match goal with |- context [for_list ?F _ _] => set (step := F) end.
+  assert (L : forall l, Forall (fun x => x < N.of_nat ct_nattrs) l -> forall acc,
+            for_list step l acc = Some (inl (acc ++ ct_csis (map ct_attr_pr (filter (ct_has a) l))))).
+  { induction l as [|x t IH]; intros Hl acc.
+    - cbn. now rewrite app_nil_r.
+    - inversion Hl as [|? ? Hx Ht]; subst. cbn [for_list filter]. unfold step at 1.
+      rewrite (g_ct_attrs_has_eq a x Hx).
+      destruct (ct_has a x).
+      + rewrite (g_ct_set_attr_eq x acc Hx). cbv beta iota. rewrite (IH Ht).
+        cbn [map]. unfold ct_csis. cbn [map concat]. now rewrite <- app_assoc.
+      + cbv beta iota. apply (IH Ht). }
+  rewrite L; [reflexivity|].
+  rewrite attr_iterator_is. apply Forall_forall. intros x Hx.
+  apply in_map_iff in Hx. destruct Hx as (n & <- & Hn). apply in_seq in Hn. lia.
+Qed.
+
+Lemma g_ct_reset_eq f : g_ct_reset_color_write_ansi false tt f = (f ++ rn_csi [[[48]]] 109, inl tt).
+Proof. reflexivity. Qed.
+
+(* ---- PrintStyledContent / Display for StyledContent / to_string -------------- *)
+
+Lemma ct_csis_app a b : ct_csis (a ++ b) = ct_csis a ++ ct_csis b.
+Proof. unfold ct_csis. now rewrite map_app, concat_app. Qed.
+
+Lemma csis_cons x l : ct_csis (x :: l) = rn_csi x 109 ++ ct_csis l.
+Proof. reflexivity. Qed.
+Lemma csis_nil : ct_csis [] = [].
+Proof. reflexivity. Qed.
+Lemma reset_bg_pr : rn_csi (ct_colored_pr (CtBackground CtReset)) 109 = rn_csi [[[52; 57]]] 109.
+Proof. reflexivity. Qed.
+Lemma reset_fg_pr : rn_csi (ct_colored_pr (CtForeground CtReset)) 109 = rn_csi [[[51; 57]]] 109.
+Proof. reflexivity. Qed.
+
+(* the symbolic pieces are generalised before the lists are normalised: with them in place the kernel's
+   conversion check of the `cbn` steps at Qed did not return *)
+Ltac ct_abstract_pieces a :=
+  repeat match goal with |- context [rn_csi ?p 109] => generalize (rn_csi p 109); intro end;
+  try generalize (ct_csis (ct_attrs_prs a)); intros.
+
+Lemma ct_render_eq v text f :
+  g_ct_print_styled_write_ansi false (mkCtStyled v text) f = Some (f ++ ct_render_bytes v text, inl tt).
+Proof.
+  unfold g_ct_print_styled_write_ansi, g_ct_styled_style, g_ct_styled_content, ct_cmd_f0, ct_render_bytes.
+  cbn [ct_sc_style ct_sc_content]. unfold g_ct_attrs_is_empty, ct_attrs_f0.
+  destruct v as [fg bg ul a]. cbn [ct_fg ct_bg ct_ul ct_attrs].
+  destruct bg as [bg|], fg as [fg|], ul as [ul|]; cbv beta iota zeta;
+    rewrite ?g_ct_set_bg_eq; cbv beta iota zeta;
+    rewrite ?g_ct_set_fg_eq; cbv beta iota zeta;
+    rewrite ?g_ct_set_ul_eq; cbv beta iota zeta;
+    (destruct (a =? 0); cbn [negb]; cbv beta iota zeta;
+     rewrite ?g_ct_set_attrs_eq; cbv beta iota zeta;
+     cbn [ct_write_fmt]; unfold ct_lit, ct_write_str; cbv beta iota zeta;
+     rewrite ?g_ct_reset_eq; cbv beta iota zeta;
+     rewrite ?g_ct_set_bg_eq; cbv beta iota zeta;
+     rewrite ?g_ct_set_fg_eq; cbv beta iota zeta;
+     rewrite ?reset_bg_pr, ?reset_fg_pr;
+     cbn [ct_obytes ct_is_some orb];
+     ct_abstract_pieces a;
+     rewrite ?app_nil_r; cbn [app]; repeat rewrite <- app_assoc; reflexivity).
+Qed.
+
+(* the same bytes as sequences before / after the text *)
+Lemma ct_render_bytes_csis v text :
+  ct_render_bytes v text = ct_csis (ct_before v) ++ text ++ ct_csis (ct_after v).
+Proof.
+  unfold ct_render_bytes, ct_before, ct_after.
+  destruct v as [fg bg ul a]. cbn [ct_fg ct_bg ct_ul ct_attrs].
+  destruct bg as [bg|], fg as [fg|], ul as [ul|]; (destruct (a =? 0);
+    cbn [ct_obytes ct_olist ct_is_some orb];
+    rewrite ?ct_csis_app, ?csis_cons, ?csis_nil;
+    ct_abstract_pieces a;
+    rewrite ?app_nil_r; cbn [app]; repeat rewrite <- app_assoc; reflexivity).
+Qed.
+
+(* `v.apply(text).to_string()` for EVERY value: no panic, and exactly these bytes *)
+Theorem g_crossterm_render_str_eq v text :
+  g_crossterm_render_str false v text = Some (ct_render_bytes v text).
+Proof.
+  unfold g_crossterm_render_str, g_ct_apply, g_ct_styled_new, g_ct_styled_fmt. cbn [ct_sc_style ct_sc_content].
+  rewrite ct_render_eq. reflexivity.
+Qed.
+
+Theorem g_crossterm_render_eq v : g_crossterm_render v = Some (ct_render_bytes v [120]).
+Proof. apply g_crossterm_render_str_eq. Qed.
